@@ -23,6 +23,7 @@ import (
 // c18FuncFields: function-typed fields of the state type that only ever hold one known function
 // (stored at construction): calls through them are calls of that function.
 func c18FuncFields(p *Prog, tkey string) map[string]*ssa.Function {
+	stypes := c18StateTypes(p, tkey)
 	out := map[string]*ssa.Function{}
 	bad := map[string]bool{}
 	for _, f := range p.Funcs {
@@ -36,7 +37,7 @@ func c18FuncFields(p *Prog, tkey string) map[string]*ssa.Function {
 				return
 			}
 			id := fieldIDOfAddr(fa)
-			if id.Type != tkey {
+			if !stypes[id.Type] {
 				return
 			}
 			if _, isFn := s.Val.Type().Underlying().(*types.Signature); !isFn {
@@ -65,6 +66,7 @@ func c18FuncFields(p *Prog, tkey string) map[string]*ssa.Function {
 // c18IfaceFields: interface-typed fields of the state type that only ever hold values of one
 // concrete type (stored at construction): method calls through them are calls on that type.
 func c18IfaceFields(p *Prog, tkey string) map[string]types.Type {
+	stypes := c18StateTypes(p, tkey)
 	out := map[string]types.Type{}
 	bad := map[string]bool{}
 	for _, f := range p.Funcs {
@@ -78,7 +80,7 @@ func c18IfaceFields(p *Prog, tkey string) map[string]types.Type {
 				return
 			}
 			id := fieldIDOfAddr(fa)
-			if id.Type != tkey {
+			if !stypes[id.Type] {
 				return
 			}
 			if _, isIface := s.Val.Type().Underlying().(*types.Interface); !isIface {
@@ -129,14 +131,16 @@ func c18ResolveRoles(p *Prog, tt *c18Terms, fn *ssa.Function, cfg *c18Cfg) *c18R
 	if named == nil {
 		return nil
 	}
-	st := structOf(named)
 	tkey := namedKey(named)
+	stypes := c18StateTypes(p, tkey)
 	info := &c18RoleInfo{RecvKey: tkey, CtorTerm: map[string]string{}, CtorPos: map[string]ssa.Instruction{}, NotFrozen: map[string]string{}, PrevStore: map[string][]*ssa.Store{}}
 	type fstore struct {
 		st    *ssa.Store
 		fresh bool
 	}
+	// fields (of the state type and of the structs nested in it by value) are keyed by FieldID.String()
 	stores := map[string][]fstore{}
+	ftypes := map[string]types.Type{}
 	for _, f := range p.Funcs {
 		allInstrs(f, func(in ssa.Instruction) {
 			s, ok := in.(*ssa.Store)
@@ -148,33 +152,55 @@ func c18ResolveRoles(p *Prog, tt *c18Terms, fn *ssa.Function, cfg *c18Cfg) *c18R
 				return
 			}
 			id := fieldIDOfAddr(fa)
-			if id.Type != tkey {
+			if !stypes[id.Type] {
 				return
 			}
-			stores[id.Field] = append(stores[id.Field], fstore{s, isFreshBase(fa.X)})
+			stores[id.String()] = append(stores[id.String()], fstore{s, isFreshBase(fa.X)})
 		})
+	}
+	var fieldKeys []string
+	{
+		var visit func(t types.Type, depth int)
+		seenT := map[string]bool{}
+		visit = func(t types.Type, depth int) {
+			key := namedKey(t)
+			sst, ok := t.Underlying().(*types.Struct)
+			if !ok || seenT[key] || depth > 3 {
+				return
+			}
+			seenT[key] = true
+			for i := 0; i < sst.NumFields(); i++ {
+				f := sst.Field(i)
+				k := FieldID{key, f.Name()}.String()
+				ftypes[k] = f.Type()
+				fieldKeys = append(fieldKeys, k)
+				if n, ok := types.Unalias(f.Type()).(*types.Named); ok && stypes[namedKey(n)] {
+					visit(n, depth+1)
+				}
+			}
+		}
+		visit(named, 0)
 	}
 	subst := map[string]*c18T{}
 	var prevCands []string
-	for i := 0; i < st.NumFields(); i++ {
-		f := st.Field(i)
-		id := FieldID{tkey, f.Name()}
-		if pt, ok := f.Type().Underlying().(*types.Pointer); ok {
+	for _, k := range fieldKeys {
+		ft := ftypes[k]
+		if pt, ok := ft.Underlying().(*types.Pointer); ok {
 			if b, ok := pt.Elem().Underlying().(*types.Basic); ok && b.Kind() == types.String {
-				prevCands = append(prevCands, f.Name())
-				for _, s := range stores[f.Name()] {
-					info.PrevStore[f.Name()] = append(info.PrevStore[f.Name()], s.st)
+				prevCands = append(prevCands, k)
+				for _, s := range stores[k] {
+					info.PrevStore[k] = append(info.PrevStore[k], s.st)
 				}
 			}
 			continue
 		}
-		b, ok := f.Type().Underlying().(*types.Basic)
+		b, ok := ft.Underlying().(*types.Basic)
 		if !ok || b.Kind() != types.String {
 			continue
 		}
-		ss := stores[f.Name()]
+		ss := stores[k]
 		if len(ss) == 0 {
-			info.NotFrozen[f.Name()] = "never stored"
+			info.NotFrozen[k] = "never stored"
 			continue
 		}
 		term := ""
@@ -193,17 +219,17 @@ func c18ResolveRoles(p *Prog, tt *c18Terms, fn *ssa.Function, cfg *c18Cfg) *c18R
 			term, tv = t.String(), t
 		}
 		if bad != "" {
-			info.NotFrozen[f.Name()] = bad
+			info.NotFrozen[k] = bad
 			continue
 		}
 		if c18Classify(tv, map[string]bool{}) == c18Fresh {
-			info.NotFrozen[f.Name()] = "constructed from a per-call value"
+			info.NotFrozen[k] = "constructed from a per-call value"
 			continue
 		}
-		info.Fields = append(info.Fields, f.Name())
-		info.CtorTerm[f.Name()] = term
-		info.CtorPos[f.Name()] = ss[0].st
-		subst[id.String()] = tv
+		info.Fields = append(info.Fields, k)
+		info.CtorTerm[k] = term
+		info.CtorPos[k] = ss[0].st
+		subst[k] = tv
 	}
 	sort.Strings(info.Fields)
 	if len(subst) == 0 {
@@ -214,7 +240,7 @@ func c18ResolveRoles(p *Prog, tt *c18Terms, fn *ssa.Function, cfg *c18Cfg) *c18R
 	target := ""
 	for _, pass := range []int{0, 1} {
 		for _, f := range info.Fields {
-			tv := subst[FieldID{tkey, f}.String()]
+			tv := subst[f]
 			x := tv
 			for x.Op == "pathfn" && (x.Lit == "Clean" || x.Lit == "Abs") && len(x.Args) == 1 {
 				x = x.Args[0]
@@ -262,18 +288,18 @@ func c18ResolveRoles(p *Prog, tt *c18Terms, fn *ssa.Function, cfg *c18Cfg) *c18R
 	}
 	switch {
 	case len(prevCands) == 1:
-		cfg.Prev = FieldID{tkey, prevCands[0]}.String()
+		cfg.Prev = prevCands[0]
 	case len(prevCands) > 1:
 		// keep the name hint if it is one of them, else the first that Write's package stores
 		hint := cfg.Prev
 		found := false
 		for _, c := range prevCands {
-			if (FieldID{tkey, c}).String() == hint {
+			if c == hint {
 				found = true
 			}
 		}
 		if !found {
-			cfg.Prev = FieldID{tkey, prevCands[0]}.String()
+			cfg.Prev = prevCands[0]
 		}
 	}
 	return info
